@@ -5,8 +5,8 @@ import json, subprocess
 ENGINE = "sandbox+rapid harness"
 # id -> (technique, level text, level note, design ref)
 CHECKS = {
- "C01": ("property-based fuzzing: complete corpus-derived enumeration + rapid token/byte mutation + nesting bombs, crash/termination validity oracle in sandbox workers",
-         "Every token-boundary prefix / single-token deletion / duplication of the 331-file corpus (thorough: complete; quick: seeded 1/16 sample), rapid-generated mutants of seed and generated programs in both lexing modes (accepted mutants of generated programs are run), and nesting bombs; the outcome must be a program or a diagnostic, never a Go panic, process death, stack exhaustion or missed deadline.",
+ "C01": ("property-based fuzzing: complete operand-omission matrix (value position x way of being incomplete, accepted sources run) + complete corpus-derived enumeration + rapid token/byte mutation + nesting bombs, crash/termination validity oracle in sandbox workers",
+         "Every token-boundary prefix / single-token deletion / duplication of the 331-file corpus (thorough: complete; quick: seeded 1/16 sample), rapid-generated mutants of seed and generated programs in both lexing modes (accepted mutants of generated programs are run), 98 value positions x 587 incomplete or value-less fillers (accepted ones are run: no nil dereference), and nesting bombs (brackets, variable-first lists, operator chains up to a million); the outcome must be a program or a diagnostic, never a Go panic, process death, stack exhaustion or missed deadline.",
          "Validity oracle on the worker reply; hang = deadline 2 s + 0.25 ms/byte confirmed by a 5x re-run; findings keyed by phase and innermost /repo function (hang site = deepest frame stable across stack samples)."),
  "C02": ("differential testing of generated programs against an independent reference interpreter (rapid + AST-level reducer)",
          "Typed program generator (pgen) over the control-flow core; each program is run by origami in a sandbox worker and by pgen's own big-step interpreter; stdout and uncaught outcome must agree. Per-construct probe campaigns attribute failures to single constructs; the main campaign searches all constructs not excluded by a listed finding.",
@@ -22,31 +22,31 @@ CHECKS["C05"] = ("differential testing of generated try/catch/finally programs a
          "Generated exception hierarchies and nested try/catch/finally inside loops, switches and functions with every exit path; marker traces compared with the reference interpreter (first matching catch, same object, finally exactly once, return/throw in finally overrides); a seeded subset plus truncated variants run through the CLI for exit status, diagnostic and flush.",
          "PHP semantics for try/catch/finally as the reference; base control-flow constructs inherit the C02 exclusions; break/continue out of finally are not generated.")
 CHECKS["C06"] = ("exhaustive shape x aliasing-route x mutation x side matrix with in-run before/after snapshots against a Go model of each mutation; rapid random shapes",
-         "Seven shapes x eleven routes (assign, by-value parameter, return, static-local return, property store/read, outer-array store/read, clone; positive controls & reference and object handle) x thirteen mutations x mutated side, complete in both tiers, plus random shapes: the untouched name keeps its deep snapshot, the mutated name shows exactly the model's effect, explicit sharing must write through.",
+         "Seven shapes x eleven routes (assign, by-value parameter, return, static-local return, property store/read, outer-array store/read, clone; positive controls & reference and object handle) x thirteen mutations x mutated side, and seven arrays built by statements (unset / sparse / keyed append / pop) x fourteen by-reference library calls (sort family, shift / unshift / splice / push / pop, by-reference walk and foreach) judged for independence, complete in both tiers, plus random shapes: the untouched name keeps its deep snapshot, the mutated name shows exactly the model's effect, explicit sharing must write through.",
          "Snapshots compared modulo integer keys; positional mutations on string-keyed literals (object-like values in origami) are not asserted.")
 CHECKS["C07"] = ("exhaustive decision-table testing: generated class fixtures for every (member kind x modifier x static-ness x access site x operation) and (declared type x value kind x boundary) cell, judged against the statement's table",
-         "Complete cross product of visibility cells (9 access sites incl. closures, dynamic names and parent::, two hierarchy depths) and of type cells (10 declared types x 11 value kinds x 7 boundaries) plus abstract/interface instantiation; a denied access / foreign value must raise a catchable error and leave the member unchanged, an allowed access / value of the type must go through unchanged.",
+         "Complete cross product of visibility cells (9 access sites incl. closures, dynamic names and parent::, two hierarchy depths) and of type cells (10 declared types x 11 value kinds x 15 boundaries incl. writes through $this to properties declared in ancestors, static and promoted properties, method returns; visibility also for typed / promoted / readonly declaration spellings) plus abstract/interface instantiation; a denied access / foreign value must raise a catchable error and leave the member unchanged, an allowed access / value of the type must go through unchanged.",
          "Coercible scalar-to-scalar combinations are recorded, not judged; every cell runs as its own script on a fresh VM.")
 CHECKS["C08"] = ("exhaustive enumeration of small class/interface hierarchies (+ seeded larger ones) judged against an independent reachability and nearest-definition computation",
-         "All hierarchies with <= 3 classes and <= 2 interfaces (forests x interface-extends DAGs x implements subsets x method placements), seeded hierarchies to 5+4; per hierarchy every (object class, type) pair through instanceof, typed parameter and catch, every call form ($o->m(), parent::, self::, static::), and a structural-typing (like) enumeration over class chains.",
+         "All hierarchies with <= 3 classes and <= 2 interfaces (forests x interface-extends DAGs x implements subsets x method placements), seeded hierarchies to 5+4; per hierarchy every (object class, type) pair through instanceof, typed parameter and catch, every call form ($o->m(), parent::, self::, static::), and a structural-typing (like) enumeration over class chains unrelated to the target and below it (nominal supertypes with arity-changing overrides).",
          "Root classes extend Exception so one hierarchy serves all judges; like is asserted for targets that declare their methods directly.")
 CHECKS["C09"] = ("controlled-schedule enumeration (DFS with replay) and rapid-drawn schedules over real goroutines parked at verif-tag hook points, history invariants at quiescence; plus -race stress of spawn scripts",
-         "A controlled scheduler owns every decision point of Send/Close/Receive (hook points between the closed test and the chan operation); all interleavings of the small configurations are enumerated, larger ones drawn by rapid and shrunk; invariants: exactly-once, per-sender order, no phantom values, send after close fails, no panic, nobody stuck. A second engine runs spawn-based producer/consumer scripts through the interpreter built with -race at GOMAXPROCS 1..16.",
+         "A controlled scheduler owns every decision point of Send/Close/Receive (hook points between the closed test and the chan operation); all interleavings of the small configurations are enumerated, larger ones drawn by rapid and shrunk; invariants: exactly-once, per-sender order, no phantom values, send after close fails, no panic, nobody stuck. A second engine runs spawn-based producer/consumer scripts through the interpreter built with -race at GOMAXPROCS 1..16; a third lets m > k receivers race on real threads for the k values buffered in a closed channel (all must return, each value once).",
          "Needs the verif build tag (hook in std/channel); blocking inside a real chan operation is recognised from the goroutine's runtime state (no timing assumption); the -race stress sends the loop variable itself.")
 CHECKS["C10"] = ("seeded concurrent stress under the race detector with a sequential-witness (linearizability-style) check of the recorded call history",
-         "Rapid-drawn histories of 2..16 goroutines x up to 10^4 mixed registry calls over overlapping names on one VM, run in a -race worker at GOMAXPROCS 1..16; the worker must survive without a fatal concurrent-map error or race report, and the stamped history must admit a sequential witness (one winner per name, completed registrations visible, no phantom lookups, one global cell per name, final state = union).",
+         "Rapid-drawn histories of 2..16 goroutines x up to 10^4 mixed registry calls (incl. GetOrLoadClass of classes that exist only as files in sub-directories of a registered namespace directory) over overlapping names on one VM, run in a -race worker at GOMAXPROCS 1..16; the worker must survive without a fatal concurrent-map error or race report, and the stamped history must admit a sequential witness (one winner per name, completed registrations visible, no phantom lookups, one global cell per name, final state = union).",
          "Go's scheduler owns the interleaving (stress, not schedule control): a green run is evidence, not exclusion; the race detector turns a latent race into a report without needing the bad interleaving.")
 CHECKS["C11"] = ("differential testing of generated HTTP handlers: concurrent (real goroutines / gated two-request interleavings) vs the same request served alone on a fresh VM",
-         "Generated route handlers reading request inputs through the request object and the superglobals; engine (i) 2..64 requests in flight (GOMAXPROCS varied, -race build in thorough), engine (ii) every placement of a gate between two reads with the other request run to completion in between; status, headers and body must equal the alone run.",
+         "Generated route handlers reading request inputs through the request object and the superglobals; engine (i) 2..64 requests in flight (GOMAXPROCS varied, -race build in thorough), engine (ii) every placement of a gate between two reads with the other request run to completion in between; status, headers and body must equal the alone run; handler styles include per-request objects whose methods evaluate capture-less closures reading $this, and one fixed annotation-routed application (directory scan, controller, class middleware with state across $next) is served gated, sequentially and in parallel.",
          "In-process mux with httptest recorders; handlers avoid by-design shared state; the parallel engine does not own the schedule, the gated engine does; requests carry a per-request tag in every value, so the one-at-a-time run has an absolute oracle too (no value of another request may appear), and half of the servers put a closure middleware in front of the routes.")
 CHECKS["C12"] = ("model-based stateful testing: exhaustive short histories + rapid histories over base and temporary VMs, every lookup on every VM compared with a set model after every step",
-         "Histories of define (by parsing source through the VM's parser, or by Add*) / probing script / discard over one base VM and up to four temporary VMs with colliding names; after each step every VM answers GetClass / GetInterface / GetFunc / LoadPkg (and class_exists / function_exists / new / call) for every name and must agree with Base U Local[i].",
+         "Histories of define (by parsing source through the VM's parser, or by Add*) / autoload of a class file / load of the same file (class + interface + function) through several temporary VMs / probing script / discard over one base VM and up to four temporary VMs with colliding names; after each step every VM answers GetClass / GetInterface / GetFunc / LoadPkg (and class_exists / function_exists / new / call) for every name and must agree with Base U Local[i].",
          "For names defined on several VMs resolvability is asserted, and that the definition a script runs was made on the base VM or on the VM running it (each class reports where it was defined); intended write-through sharing (file cache, constants, globals) is not modelled.")
 CHECKS["C13"] = ("exhaustive enumeration of response-operation sequences and middleware stacks against a reference model of commit-once semantics; rapid longer sequences",
          "All sequences up to length 4 (thorough 6, symmetry-pruned) over 11 response operations as generated route handlers served through an instrumented ResponseWriter (WriteHeader count, header snapshot at commit); all middleware stacks of <= 5 entries with priorities {-1,0,0,1,5} in every registration order; longer sequences seeded.",
          "Single-operation body/header contributions are calibrated from the implementation; the model asserts ordering and commit semantics.")
 CHECKS["C14"] = ("round-trip and differential testing against reference codecs (Go encoding/json, base64, hex, net/url, crypto, protowire.Consume*, an independent PHP-serialize reader/writer) over rapid-generated value trees and grammar-aware mutated byte strings",
-         "Value trees and byte strings through every listed encoder/decoder: encoder output must be read back by the reference implementation as the same value and the matching decoder must invert it; json_decode / unserialize / ParseRawFields must accept exactly what their reference parser accepts, produce the same tree and account for every byte; every decoder call must return inside the sandbox watchdog without a Go panic; single bytes and structural byte pairs enumerated.",
+         "Value trees and byte strings through every listed encoder/decoder: encoder output must be read back by the reference implementation as the same value and the matching decoder must invert it; json_decode / unserialize / ParseRawFields must accept exactly what their reference parser accepts, produce the same tree and account for every byte; every decoder call must return inside the sandbox watchdog without a Go panic; single bytes and structural byte pairs enumerated; every RFC 8259 spelling of numbers, escapes and white space enumerated and JSON texts drawn from the grammar.",
          "Depth-limit borderlines of the protobuf parser are asserted only where both plausible counting conventions agree; empty keyed values may encode as [] or {}.")
 CHECKS["C15"] = ("exhaustive (method x receiver x argument-tuple) enumeration against an independent Go implementation of the documented (JavaScript Array/String) semantics; rapid longer receivers",
          "Every array and string method with each optional argument omitted or given, boundary indexes {-len-1 .. len+1}, 0..3 variadic items, callbacks using element / index / array; the return value and the receiver afterwards are both observed and compared with the model (mutators change the receiver exactly as specified, others leave it untouched).",
@@ -56,7 +56,7 @@ CHECKS["C17"] = ("exhaustive signature enumeration with reflect.MakeFunc-manufac
          "Exact transfer asserted for matching kinds only; mismatched kinds are checked for 'value or catchable error'.")
 CHECKS["C19"] = ("model-based history testing: exhaustive short histories + rapid histories of generic instantiations and typed member writes against a per-instance acceptance model",
          "Every history of instantiations Box<A> (and Pair<A,B> in the seeded part) with interleaved typed property writes / typed method calls on any live instance; each write must be accepted iff the value belongs to that instance's own type argument and read back unchanged, whatever was instantiated before.",
-         "Per-instance model from the statement; the concurrent-instantiation variant is not built (see DESIGN).")
+         "Per-instance model from the statement; the same histories inside a namespace and with imported classes; fresh new-sites evaluated for the first time by 8 goroutines at once must all yield instantiations bound to their type argument.")
 CHECKS["C18"] = ("invariant checking over generated and injected sources (token span invariants) and planted-fault location testing through the CLI",
          "Token span invariants (bounds, order, line = newline count, literal = source slice) on every corpus file and on generated programs with seeded injections of multi-byte text, CRLF, comments, heredoc/nowdoc, interpolation, full-width space and inline HTML at token boundaries; and generated one-statement-per-line programs with exactly one planted fault (five runtime faults, three parse faults) moved over all top-level positions, whose printed file:line must be the planted line.",
          "Only the line of a diagnostic is asserted; a lexer crash is C01's subject and makes a span case unjudgeable here.")
@@ -64,7 +64,7 @@ CHECKS["C20"] = ("metamorphic repetition testing (fresh processes and fresh VMs)
          "Generated class and control-flow programs run k times (6 quick / 21 thorough) on fresh VMs in one process and in fresh CLI processes with byte-identical output, diagnostics and status required; declaration/insertion order of properties and keyed entries through foreach / json_encode / get_object_vars compared with the order the generator knows; every ordered pair of residue-leaving programs run as [A, B] vs [B] in one process; the statically deterministic corpus files repeated in fresh processes.",
          "Go map-iteration randomisation is the adversary: k = 21 leaves a 2-way order dependence undetected with probability 2^-20; corpus determinism is decided by a static denylist, never by running twice.")
 CHECKS["C16"] = ("translation validation: generated programs compiled by `origami compile`, built into one Go binary per batch and run compiled vs interpreted (differential on stdout, exit status, diagnostic)",
-         "Batches of generated programs (control flow, namespaced exceptions, expressions, class programs, class hierarchies) and the deterministic corpus files: each is translated by its own compile invocation, the generated Go sources are built once per batch against /repo, and the compiled and interpreted runs must agree on stdout bytes, exit status and the location-free diagnostic; a rejected file must be reported by name, generated code must build.",
+         "Batches of generated programs (control flow, namespaced exceptions, expressions, class programs, class hierarchies, multi-namespace files, user attributes), 20 fixed class chains, 20 hand-written programs for language areas the generators do not reach (float literals, global, statics, references, closures, constants, enums ...) and the deterministic corpus files: each is translated by its own compile invocation, the generated Go sources are built once per batch against /repo, and the compiled and interpreted runs must agree on stdout bytes, exit status and the location-free diagnostic; a rejected file must be reported by name, generated code must build.",
          "Only programs the generators produce plus the filtered corpus; the node constructors that appeared in generated Go sources are listed in the evidence labels.")
 NOT_YET = {
 }
